@@ -314,6 +314,9 @@ orc_line_parse_tokens (OrcLine *line)
     if (!orc_line_has_data (line) || orc_line_is_comment (line)) {
       break;
     }
+    if (line->n_tokens >= ORC_LINE_MAX_TOKENS) {
+      break;
+    }
     orc_line_add_token (line);
   }
 }
